@@ -115,6 +115,7 @@ class Summ:
         self.members = set()     # union members read/written: names
         self.va_types = []
         self.notes = []
+        self.scan_forms = []
 
     def add(self, it):
         if isinstance(it, int):
@@ -225,11 +226,11 @@ class Summariser:
         # (a) NUL scan: the exit test is a loaded byte: *p, *++p, *p++ , deref(pos..), deref(++pos..)
         if c.get("kind") == "UnaryOperator" and c.get("opcode") == "*":
             S.add("strlen")
-            self._note_scan(loop, cond, S)
+            S.scan_forms.append(self._scan_form(A.kids(c)[0], body))
             return
         if c.get("kind") == "CallExpr" and A.callee_name(c) in self.scan_calls:
             S.add("strlen")
-            self._note_scan(loop, cond, S)
+            S.scan_forms.append(self._scan_form(A.kids(c)[1], body))
             return
         # (b) counted copy: while(i--) ...
         if c.get("kind") == "UnaryOperator" and c.get("opcode") == "--" and c.get("isPostfix"):
@@ -237,9 +238,13 @@ class Summariser:
             return
         raise Unrecognised("loop condition `%s` not understood at %s" % (A.src(cond), A.where(loop)))
 
-    def _note_scan(self, loop, cond, S):
-        # which variable is scanned: the cursor itself or a separate source pointer
-        pass
+    def _scan_form(self, addr, body):
+        """'skip-first' when the cursor is advanced before the byte is tested (`*++p`), 'test-first' when the byte
+        under the cursor is tested before advancing (`*p` ... p++ / `*p++`)"""
+        a = A.strip_casts(addr)
+        if a.get("kind") == "UnaryOperator" and a.get("opcode") == "++" and not a.get("isPostfix"):
+            return "skip-first"
+        return "test-first"
 
     # -- statements -------------------------------------------------------------
     def stmts_effects(self, stmts, S):
@@ -281,8 +286,10 @@ class Summariser:
                 if len(ks) > 2:
                     self.stmts_effects([ks[2]], b)
                 if a.key() != b.key() or a.counters != b.counters:
-                    raise Unrecognised("branches of `if(%s)` move the cursor differently (%s vs %s) at %s" %
-                                       (A.src(ks[0]), a.items, b.items, A.where(s)))
+                    # the two branches advance the cursor differently: recorded as such (never equal to a payload class)
+                    S.add("if(%s){%s}else{%s}" % (A.src(ks[0]), ",".join(map(str, a.items)), ",".join(map(str, b.items))))
+                    S.members |= a.members | b.members
+                    continue
                 for it in a.items:
                     S.add(it)
                 for c, v in a.counters.items():
